@@ -674,9 +674,10 @@ def cross_interpreter(repo: str) -> dict:
 
 
 def _shared_mutables(a: Any, b: Any) -> list[str]:
-    """Paths of mutable containers (list / dict / set / ndarray) reachable
-    from both objects through containers and the attributes of pass data,
-    circuits and models (gates are immutable values and not entered)."""
+    """Paths of mutable containers (list / dict / set / ndarray) and of
+    mutable objects (pass data, circuits, machine models, coupling graphs)
+    reachable from both objects through containers and attributes (gates and
+    gate sets are immutable values and not entered)."""
     from bqskit.compiler.machine import MachineModel as _MM
 
     def walk(o: Any, path: str, out: dict[int, str], depth: int) -> None:
@@ -694,7 +695,13 @@ def _shared_mutables(a: Any, b: Any) -> list[str]:
         elif isinstance(o, (list, tuple, set)):
             for i, v in enumerate(o):
                 walk(v, '%s[%d]' % (path, i), out, depth + 1)
-        elif isinstance(o, (PassData, Circuit, _MM)):
+        elif isinstance(o, (PassData, Circuit, _MM, CouplingGraph)):
+            # objects with assignable attributes are mutable state themselves
+            # (e.g. the gate_set setter of PassData writes into its model)
+            if depth > 0:
+                if id(o) in out:
+                    return
+                out[id(o)] = path
             for k, v in vars(o).items():
                 walk(v, '%s.%s' % (path, k), out, depth + 1)
     ia: dict[int, str] = {}
